@@ -11,6 +11,7 @@ TABLE = [
  ("events",  "EventsCalls", "EventsMenu", "Genesis0",     '{"eth"}',        "Mods0",         (1, 3, 1), (1, 4, 2)),
  ("funds",   "FundsCalls",  "FundsMenu",  "GenesisFunds", '{"eth", "btc"}', "Mods0",         (2, 3, 1), (2, 4, 2)),
  ("private", "PrivCalls",   "PrivMenu",   "Genesis0",     '{"eth"}',        "Mods0",         (2, 2, 1), (2, 3, 2)),
+ ("percode", "PcCalls",     "PcMenu",     "GenesisPC",    '{"eth"}',        "Mods0",         (2, 3, 1), (3, 3, 2)),
  ("registry","RegCalls",    "RegMenu",    "Genesis0",     '{"eth"}',        "Mods0",         (3, 2, 1), (4, 2, 2)),
  ("admin",   "AdmCalls",    "AdmMenu",    "Genesis0",     '{"eth"}',        "Mods0",         (2, 3, 1), (3, 3, 2)),
  ("strings", "StrCalls",    "StrMenu",    "Genesis0",     '{"eth"}',        "Mods0",         (1, 3, 1), (1, 3, 2)),
@@ -19,12 +20,14 @@ TABLE = [
  ("routefail","RouteCalls", "RouteMenu",  "GenesisRoute",     '{"eth"}',        "Mods0",         (1, 3, 1), (1, 3, 2)),
 ]
 for name, calls, menu, gen, den, mods, q, t in TABLE:
+    addrmode = "percode" if name == "percode" else "simple"
     for tier, (maxtx, fuel, level) in (("quick", q), ("thorough", t)):
         with open(os.path.join(ROOT, "spec", "mc", f"MC_Chain_{name}_{tier}.cfg"), "w") as f:
             f.write(f"""SPECIFICATION Spec
 CONSTANTS
   Denoms = {den}
   Mods <- {mods}
+  AddrMode = "{addrmode}"
   MaxTx = {maxtx}
   Fuel = {fuel}
   Level = {level}
